@@ -755,9 +755,8 @@ theorem update_uncles_at_boundary_unchanged (cfg : Cfg) (U mc mp : Nat) (g : GSt
 /-- why `>` and `>=` in that guard differ only in side effects: at the boundary the test that follows
     (`new_total_size < max_block_bytes`) refuses every prepared list that is LONGER than the template's
     current one, whatever `prepare_uncles` returns. With `>=` the path could therefore only prune the
-    container or install a list that is not longer (the harness drives the boundary — fills that leave
-    exactly 228 / 229 bytes at an epoch's last block — so that the pruning shows in the compared
-    candidate list). -/
+    container or install a list that is not longer. (The correspondence does not distinguish the two
+    guards: its fills reach 228 / 229 bytes, but not at the moment old-epoch candidates arrive.) -/
 theorem update_uncles_boundary_growth_refused (maxBytes U sTotal sUncles nOld nNew : Nat)
     (h : maxBytes - sTotal = U) (hle : sTotal ≤ maxBytes) (hu : sUncles = U * nOld) (hgrow : nOld < nNew) :
     ¬ Template.calcTotal sTotal sUncles (U * nNew) < maxBytes := by
